@@ -515,7 +515,7 @@ theorem translated_casts (off : V3 K) (o : Cast K) (S : V3 K → V3 K → Prop) 
 theorem matrix_casts (sqrt : K → K) (m minv : M3 K) (o : Cast K) (S : V3 K → V3 K → Prop)
     (ho : CastsSurface o S) :
     CastsSurface (matrixCast sqrt m minv o)
-      (fun p n' => ∃ n, S (minv.mulColumn p) n ∧ n' = (m.mulColumn n).normalize sqrt) := by
+      (fun p n' => ∃ n, S (minv.mulColumn p) n ∧ n' = (minv.transpose.mulColumn n).normalize sqrt) := by
   constructor
   · intro r h e
     unfold matrixCast at e
@@ -543,6 +543,17 @@ theorem matrix_casts (sqrt : K → K) (m minv : M3 K) (o : Cast K) (S : V3 K →
       apply ho.complete _ e0 t n ht
       rw [mulColumn_at]; exact hs
     · cases e
+
+/-- `(Aᵀ n)·v = n·(A v)`. -/
+theorem transpose_dot (a : M3 K) (n v : V3 K) :
+    (a.transpose.mulColumn n).dot v = n.dot (a.mulColumn v) := by
+  simp only [M3.transpose, M3.mulColumn, V3.dot]; ring
+
+/-- The inverse-transpose normal pairs with image vectors exactly as the original normal pairs
+with the original vectors. -/
+theorem inverse_transpose_normal (m : M3 K) (hd : m.det ≠ 0) (n v : V3 K) :
+    (m.inverse.transpose.mulColumn n).dot (m.mulColumn v) = n.dot v := by
+  rw [transpose_dot, inverse_mulColumn m hd]
 
 /-- For a rotation composed with a uniform scale (`MᵀM = s²·I`) the vector `M n` the code
 normalises is `s²` times the exact normal transform `M⁻ᵀ n`: it stays perpendicular to the images of
@@ -582,12 +593,12 @@ theorem directLight_nil (scene : Ray K → Option (Hit K × Mat K σ)) (sqrt : K
     directLight scene sqrt eps [] point normal dest m color = color := rfl
 
 theorem recurse_uniform_emitter (scene : Ray K → Option (Hit K × Mat K σ)) (sqrt abs : K → K)
-    (cutoff eps : K) (E : V3 K)
+    (cutoff eps : K) (uniform : σ → K × σ) (focus : List (FocusPt K σ)) (E : V3 K)
     (hclosed : ∀ r, ∃ c m, scene r = some (c, m) ∧ m.emission = E ∧ m.ambient = V3.zero ∧
       ∀ n s d, m.bsdf n s d = V3.zero)
     (fuel : Nat) (first : Bool) (g : σ) (ray : Ray K) (scale : V3 K)
     (hcut : ¬ (scale.x + scale.y + scale.z) / 3 < cutoff) :
-    (recurse scene sqrt abs cutoff eps [] fuel first g ray scale).1 = E := by
+    (recurse scene sqrt abs cutoff eps [] uniform focus fuel first g ray scale).1 = E := by
   obtain ⟨c, m, hs, hE, hA, hB⟩ := hclosed ray
   have hcol : (if first then m.emission.add m.ambient else m.emission) = E := by
     split
@@ -614,7 +625,8 @@ theorem foldl_congr_mem {α β : Type} (l : List α) (f g : β → α → β) (b
 /-- With `MaxDepth = 0`, a constant (matte) BSDF and no light in shadow, the ray tracer's sample
 is the ray caster's pixel. -/
 theorem recurse_lit_matte (scene : Ray K → Option (Hit K × Mat K σ)) (sqrt abs : K → K)
-    (cutoff eps : K) (hcut : cutoff ≤ 1) (lights : List (PointLight K)) (ray : Ray K) (g : σ)
+    (cutoff eps : K) (hcut : cutoff ≤ 1) (lights : List (PointLight K)) (uniform : σ → K × σ)
+    (focus : List (FocusPt K σ)) (ray : Ray K) (g : σ)
     (c : Hit K) (m : Mat K σ) (hs : scene ray = some (c, m)) (rho : V3 K)
     (hm : ∀ n s d, m.bsdf n s d = rho)
     (hshadow : ∀ l ∈ lights,
@@ -623,7 +635,7 @@ theorem recurse_lit_matte (scene : Ray K → Option (Hit K × Mat K σ)) (sqrt a
       match scene ⟨point.add ((ld.normalize sqrt).scale eps), ld⟩ with
       | some (sc, _) => ¬ sc.scale < 1
       | none => True) :
-    (recurse scene sqrt abs cutoff eps lights 0 true g ray ⟨1, 1, 1⟩).1
+    (recurse scene sqrt abs cutoff eps lights uniform focus 0 true g ray ⟨1, 1, 1⟩).1
       = rayCasterPixel scene sqrt lights ray := by
   have h1 : ¬ ((1 : K) + 1 + 1) / 3 < cutoff := by
     have : ((1 : K) + 1 + 1) / 3 = 1 := by norm_num
@@ -760,5 +772,387 @@ theorem dirSearch_ok (ok : K → Bool) (n : Nat) (lo hi : K) (h : ok hi = true) 
     split
     · rename_i hd; exact ih _ _ hd
     · exact ih _ _ h
+
+/-- Invariants of the bisection, step by step: the bracket stays ordered, the upper end is the
+initial one or a distance at which the test succeeded, the lower end is the initial one or a distance
+at which it failed, and the bracket halves every step. -/
+theorem dirSearch_invariant (ok : K → Bool) (n : Nat) (lo hi : K) (h : lo ≤ hi) :
+    lo ≤ dirSearch ok n lo hi ∧ dirSearch ok n lo hi ≤ hi ∧
+      (ok (dirSearch ok n lo hi) = true ∨ dirSearch ok n lo hi = hi) ∧
+      ∃ l, (l = lo ∨ ok l = false) ∧ l ≤ dirSearch ok n lo hi ∧
+        dirSearch ok n lo hi - l = (hi - lo) / 2 ^ n := by
+  induction n generalizing lo hi with
+  | zero => exact ⟨h, le_refl _, Or.inr rfl, lo, Or.inl rfl, h, by simp [dirSearch]⟩
+  | succ n ih =>
+    have h1 : lo ≤ (lo + hi) / 2 := by linarith
+    have h2 : (lo + hi) / 2 ≤ hi := by linarith
+    unfold dirSearch
+    simp only []
+    split
+    · rename_i hd
+      obtain ⟨a, b, c, l, hl, hl2, hl3⟩ := ih lo ((lo + hi) / 2) h1
+      refine ⟨a, le_trans b h2, ?_, l, hl, hl2, ?_⟩
+      · rcases c with c | c
+        · exact Or.inl c
+        · rw [c]; exact Or.inl hd
+      · rw [hl3, pow_succ]; field_simp; ring
+    · rename_i hd
+      obtain ⟨a, b, c, l, hl, hl2, hl3⟩ := ih ((lo + hi) / 2) hi h2
+      refine ⟨le_trans h1 a, b, c, l, ?_, hl2, ?_⟩
+      · rcases hl with hl | hl
+        · rw [hl]; exact Or.inr (by simpa using hd)
+        · exact Or.inr hl
+      · rw [hl3, pow_succ]; field_simp; ring
+
+/-! ### Image accessors -/
+
+
+/-- Row-major enumeration: `n` rows of `m` entries. -/
+theorem flatMap_rows {β : Type} (n m : Nat) (g : Nat → Nat → β) :
+    ((List.range n).flatMap fun a => (List.range m).map (g a)) =
+      (List.range (m * n)).map fun i => g (i / m) (i % m) := by
+  induction n with
+  | zero => simp
+  | succ n ih =>
+    rw [List.range_succ, List.flatMap_append, ih, Nat.mul_succ, List.range_add, List.map_append]
+    congr 1
+    simp only [List.flatMap_cons, List.flatMap_nil, List.append_nil, List.map_map]
+    apply List.map_congr_left
+    intro x hx
+    have hx : x < m := List.mem_range.mp hx
+    have hm : 0 < m := by omega
+    simp only [Function.comp]
+    rw [Nat.mul_add_div hm, Nat.div_eq_of_lt hx, Nat.mul_add_mod, Nat.mod_eq_of_lt hx]
+    simp
+
+theorem blockSum_eq (i : Img (V3 K)) (f i1 j : Nat) : blockSum i f i1 j = sumList (blockPixels i f i1 j) := by
+  unfold blockSum blockPixels sumList
+  rw [List.foldl_flatMap]
+  congr 1
+  funext acc k
+  rw [List.foldl_map]
+
+theorem blockPixels_length (i : Img (V3 K)) (f i1 j : Nat) : (blockPixels i f i1 j).length = f * f := by
+  unfold blockPixels
+  rw [flatMap_rows]; simp
+
+theorem downsample_at (cast : Nat → K) (i : Img (V3 K)) (f j i1 : Nat)
+    (hj : j < i.width / f) (hi : i1 < i.height / f) :
+    (i.downsample cast f).at V3.zero j i1 = meanOf cast (blockPixels i f i1 j) := by
+  unfold Img.downsample Img.at meanOf
+  simp only []
+  rw [flatMap_rows, blockPixels_length, ← blockSum_eq]
+  have hlt : j + i1 * (i.width / f) < i.width / f * (i.height / f) := by
+    calc j + i1 * (i.width / f) < (i.width / f) + i1 * (i.width / f) := by omega
+      _ = (i.width / f) * (i1 + 1) := by ring
+      _ ≤ (i.width / f) * (i.height / f) := Nat.mul_le_mul_left _ hi
+  rw [List.getD_eq_getElem?_getD, List.getElem?_map, List.getElem?_range hlt]
+  simp only [Option.map_some, Option.getD_some]
+  have hw : 0 < i.width / f := by omega
+  rw [Nat.add_mul_div_right _ _ hw, Nat.div_eq_of_lt hj, Nat.add_mul_mod_self_right, Nat.mod_eq_of_lt hj]
+  simp
+
+/-- `Set` then `At`. -/
+theorem set_at {C : Type} (z : C) (i : Img C) (x y x' y' : Nat) (c : C)
+    (hx : x < i.width) (hx' : x' < i.width) (hlen : x + y * i.width < i.data.length) :
+    (i.set x y c).at z x' y' = if x' = x ∧ y' = y then c else i.at z x' y' := by
+  unfold Img.set Img.at
+  simp only [List.getD_eq_getElem?_getD, List.getElem?_set]
+  by_cases h : x' = x ∧ y' = y
+  · obtain ⟨rfl, rfl⟩ := h
+    simp [hlen]
+  · have hne : x + y * i.width ≠ x' + y' * i.width := by
+      intro e
+      apply h
+      have h1 : (x + y * i.width) % i.width = (x' + y' * i.width) % i.width := by rw [e]
+      have h2 : (x + y * i.width) / i.width = (x' + y' * i.width) / i.width := by rw [e]
+      have hw : 0 < i.width := by omega
+      rw [Nat.add_mul_mod_self_right, Nat.add_mul_mod_self_right, Nat.mod_eq_of_lt hx, Nat.mod_eq_of_lt hx'] at h1
+      rw [Nat.add_mul_div_right _ _ hw, Nat.add_mul_div_right _ _ hw, Nat.div_eq_of_lt hx, Nat.div_eq_of_lt hx'] at h2
+      omega
+    simp [hne, h]
+
+
+
+theorem copySlice_length {C : Type} (dst src : List C) (start : Nat) (h : start + src.length ≤ dst.length) :
+    (copySlice dst start src).length = dst.length := by
+  simp [copySlice]; omega
+
+theorem copySlice_getD {C : Type} (z : C) (dst src : List C) (start k : Nat)
+    (h : start + src.length ≤ dst.length) :
+    (copySlice dst start src).getD k z =
+      if start ≤ k ∧ k < start + src.length then src.getD (k - start) z else dst.getD k z := by
+  unfold copySlice
+  simp only [List.getD_eq_getElem?_getD]
+  by_cases h1 : k < start
+  · have : ¬ (start ≤ k ∧ k < start + src.length) := by omega
+    rw [if_neg this, List.append_assoc, List.getElem?_append_left (by simp; omega)]
+    rw [List.getElem?_take_of_lt h1]
+  · by_cases h2 : k < start + src.length
+    · rw [if_pos ⟨by omega, h2⟩, List.append_assoc, List.getElem?_append_right (by simp; omega)]
+      simp only [List.length_take, Nat.min_eq_left (show start ≤ dst.length by omega)]
+      rw [List.getElem?_append_left (by omega)]
+    · have : ¬ (start ≤ k ∧ k < start + src.length) := by omega
+      rw [if_neg this, List.append_assoc, List.getElem?_append_right (by simp; omega)]
+      simp only [List.length_take, Nat.min_eq_left (show start ≤ dst.length by omega)]
+      rw [List.getElem?_append_right (by omega), List.getElem?_drop]
+      congr 2; omega
+
+/-- Position of pixel `(a, b)` relative to the destination row segment of row `r`. -/
+theorem seg_iff (W x cw r a b : Nat) (ha : a < W) (hcw : x + cw ≤ W) :
+    (r * W + x ≤ a + b * W ∧ a + b * W < r * W + x + cw) ↔ (b = r ∧ x ≤ a ∧ a < x + cw) := by
+  constructor
+  · rintro ⟨h1, h2⟩
+    have hb : b = r := by
+      rcases Nat.lt_trichotomy b r with hlt | heq | hgt
+      · have : (b + 1) * W ≤ r * W := Nat.mul_le_mul_right W hlt
+        rw [Nat.add_mul] at this; omega
+      · exact heq
+      · have : (r + 1) * W ≤ b * W := Nat.mul_le_mul_right W hgt
+        rw [Nat.add_mul] at this; omega
+    subst hb
+    omega
+  · rintro ⟨rfl, h1, h2⟩
+    omega
+
+theorem copyFrom_rows {C : Type} (z : C) (W H x y cw W1 : Nat) (src : List C) (dst0 : List C)
+    (hlen : dst0.length = W * H) (hcw : x + cw ≤ W) (hcw1 : cw ≤ W1) (n : Nat) (hn : n + y ≤ H)
+    (hsrc : W1 * n ≤ src.length) :
+    let d := (List.range n).foldl (fun d row =>
+      copySlice d ((row + y) * W + x) ((src.drop (row * W1)).take cw)) dst0
+    d.length = W * H ∧ ∀ a b, a < W → b < H →
+      d.getD (a + b * W) z =
+        if x ≤ a ∧ a < x + cw ∧ y ≤ b ∧ b < y + n then src.getD ((a - x) + (b - y) * W1) z
+        else dst0.getD (a + b * W) z := by
+  induction n with
+  | zero =>
+    refine ⟨by simpa using hlen, ?_⟩
+    intro a b _ _
+    have : ¬ (x ≤ a ∧ a < x + cw ∧ y ≤ b ∧ b < y + 0) := by omega
+    simp [this]
+  | succ n ih =>
+    have hsrc' : W1 * n ≤ src.length := le_trans (Nat.mul_le_mul_left W1 (Nat.le_succ n)) hsrc
+    obtain ⟨hl, hget⟩ := ih (by omega) hsrc'
+    simp only [List.range_succ, List.foldl_append, List.foldl_cons, List.foldl_nil]
+    set d := (List.range n).foldl (fun d row =>
+      copySlice d ((row + y) * W + x) ((src.drop (row * W1)).take cw)) dst0 with hd
+    have hseg : ((src.drop (n * W1)).take cw).length = cw := by
+      simp only [List.length_take, List.length_drop]
+      have : W1 * (n + 1) = n * W1 + W1 := by ring
+      omega
+    have hfit : (n + y) * W + x + ((src.drop (n * W1)).take cw).length ≤ d.length := by
+      rw [hseg, hl]
+      have : (n + y + 1) * W ≤ H * W := Nat.mul_le_mul_right W (by omega)
+      rw [Nat.add_mul, Nat.mul_comm H W] at this
+      omega
+    refine ⟨by rw [copySlice_length _ _ _ hfit, hl], ?_⟩
+    intro a b ha hb
+    rw [copySlice_getD z _ _ _ _ hfit, hseg]
+    have hsi := seg_iff W x cw (n + y) a b ha hcw
+    by_cases hrow : b = n + y ∧ x ≤ a ∧ a < x + cw
+    · obtain ⟨rfl, h1, h2⟩ := hrow
+      rw [if_pos (hsi.mpr ⟨rfl, h1, h2⟩), if_pos ⟨h1, h2, by omega, by omega⟩]
+      simp only [List.getD_eq_getElem?_getD]
+      rw [List.getElem?_take_of_lt (by omega), List.getElem?_drop]
+      congr 2
+      have : n + y - y = n := by omega
+      rw [this]; omega
+    · rw [if_neg (fun hc => hrow (hsi.mp hc)), hget a b ha hb]
+      by_cases hold : x ≤ a ∧ a < x + cw ∧ y ≤ b ∧ b < y + n
+      · rw [if_pos hold, if_pos ⟨hold.1, hold.2.1, hold.2.2.1, by omega⟩]
+      · rw [if_neg hold, if_neg]
+        intro hc
+        apply hrow
+        refine ⟨?_, hc.1, hc.2.1⟩
+        by_contra hne
+        apply hold
+        exact ⟨hc.1, hc.2.1, hc.2.2.1, by omega⟩
+
+
+/-! ### one bounce, focus points, mixture sampling -/
+
+
+/-- A hit on a surface with zero BSDF and no point lights returns its emission (+ ambient at depth 0),
+whatever the remaining depth, the sampler and the rest of the scene. -/
+theorem recurse_zero_bsdf_hit (scene : Ray K → Option (Hit K × Mat K σ)) (sqrt abs : K → K)
+    (cutoff eps : K) (uniform : σ → K × σ) (focus : List (FocusPt K σ))
+    (fuel : Nat) (first : Bool) (g : σ) (ray : Ray K) (scale : V3 K)
+    (c : Hit K) (m : Mat K σ) (hs : scene ray = some (c, m)) (hB : ∀ n s d, m.bsdf n s d = V3.zero)
+    (hcut : ¬ (scale.x + scale.y + scale.z) / 3 < cutoff) :
+    (recurse scene sqrt abs cutoff eps [] uniform focus fuel first g ray scale).1
+      = if first then m.emission.add m.ambient else m.emission := by
+  cases fuel with
+  | zero =>
+    unfold recurse
+    simp only [hcut, if_false, hs, directLight_nil]
+  | succ fuel =>
+    unfold recurse
+    simp only [hcut, if_false, hs, hB, directLight_nil]
+    ext <;> simp [V3.add, V3.mul, V3.scale, V3.zero]
+
+/-- One bounce off a matte surface onto a zero-BSDF emitter. -/
+theorem recurse_one_bounce (scene : Ray K → Option (Hit K × Mat K σ)) (sqrt abs : K → K)
+    (cutoff eps : K) (uniform : σ → K × σ) (focus : List (FocusPt K σ))
+    (fuel : Nat) (g : σ) (ray : Ray K) (c : Hit K) (m : Mat K σ) (hs : scene ray = some (c, m))
+    (hcut : cutoff ≤ 1)
+    (c2 : Hit K) (m2 : Mat K σ)
+    (hB2 : ∀ n s d, m2.bsdf n s d = V3.zero) :
+    let point := ray.origin.add (ray.dir.scale c.scale)
+    let dest := (ray.dir.normalize sqrt).scale (-1)
+    let sg := sampleNextSource uniform focus m g point c.normal dest
+    let src := sg.1
+    let w := 1 / sourceDensity focus m point c.normal src dest * abs (src.dot c.normal)
+    let mask := (m.bsdf c.normal src dest).scale w
+    let dir := src.scale (-1)
+    let next : Ray K := ⟨point.add ((dir.normalize sqrt).scale eps), dir⟩
+    scene next = some (c2, m2) →
+    ¬ (mask.x + mask.y + mask.z) / 3 < cutoff →
+    (recurse scene sqrt abs cutoff eps [] uniform focus (fuel + 1) true g ray ⟨1, 1, 1⟩).1
+      = (m.emission.add m.ambient).add (m2.emission.mul mask) := by
+  intro point dest sg src w mask dir next hs2 hcut2
+  have h1 : ¬ ((1 : K) + 1 + 1) / 3 < cutoff := by
+    have : ((1 : K) + 1 + 1) / 3 = 1 := by norm_num
+    rw [this]; exact not_lt.mpr hcut
+  have hscale : (⟨1, 1, 1⟩ : V3 K).mul mask = mask := by ext <;> simp [V3.mul]
+  have hnext := recurse_zero_bsdf_hit scene sqrt abs cutoff eps uniform focus fuel false sg.2 next
+    ((⟨1, 1, 1⟩ : V3 K).mul mask) c2 m2 hs2 hB2 (by rw [hscale]; exact hcut2)
+  simp only [Bool.false_eq_true, if_false] at hnext
+  conv => lhs; unfold recurse
+  simp only [h1, if_false, hs, if_true, directLight_nil]
+  show (((m.emission.add m.ambient).add
+      ((recurse scene sqrt abs cutoff eps [] uniform focus fuel false sg.2 next ((⟨1, 1, 1⟩ : V3 K).mul mask)).1.mul mask))) = _
+  rw [hnext]
+
+/-! mixture density and importance sampling over a finite set of directions -/
+
+theorem sum_map_mul_add {β : Type} (S : List β) (p a b : β → K) :
+    (S.map fun s => p s * (a s + b s)).sum = (S.map fun s => p s * a s).sum + (S.map fun s => p s * b s).sum := by
+  induction S with
+  | nil => simp
+  | cons s S ih => simp only [List.map_cons, List.sum_cons, ih]; ring
+
+theorem sum_map_mul_const {β : Type} (S : List β) (p a : β → K) (c : K) :
+    (S.map fun s => p s * (a s * c)).sum = (S.map fun s => p s * a s).sum * c := by
+  induction S with
+  | nil => simp
+  | cons s S ih => simp only [List.map_cons, List.sum_cons, ih]; ring
+
+/-- The accumulator of `sourceDensity` is (Σ probᵢ·densityᵢ, 1 − Σ probᵢ). -/
+theorem sourceDensity_fold (focus : List (FocusPt K σ)) (m : Mat K σ) (point normal source dest : V3 K)
+    (a b : K) :
+    focus.foldl (fun (acc : K × K) f =>
+      (acc.1 + f.prob * f.density m point normal source dest, acc.2 - f.prob)) (a, b)
+      = (a + (focus.map fun f => f.prob * f.density m point normal source dest).sum,
+         b - (focus.map (·.prob)).sum) := by
+  induction focus generalizing a b with
+  | nil => simp
+  | cons f fs ih =>
+    simp only [List.foldl_cons, ih, List.map_cons, List.sum_cons]
+    ext <;> simp <;> ring
+
+theorem sourceDensity_eq_mixture (focus : List (FocusPt K σ)) (m : Mat K σ) (point normal source dest : V3 K) :
+    sourceDensity focus m point normal source dest =
+      (focus.map fun f => f.prob * f.density m point normal source dest).sum
+        + (1 - (focus.map (·.prob)).sum) * m.density normal source dest := by
+  cases focus with
+  | nil => simp [sourceDensity]
+  | cons f fs =>
+    simp only [sourceDensity, sourceDensity_fold]
+    simp
+
+/-- Importance sampling with a mixture proposal is unbiased, on any finite set of outcomes:
+`Σ_j p_j Σ_ω q_j(ω)·f(ω)/mix(ω) + (1−Σp) Σ_ω q_m(ω)·f(ω)/mix(ω) = Σ_ω f(ω)` whenever the mixture
+density `mix = Σ_j p_j q_j + (1−Σp) q_m` is non-zero on the outcomes. -/
+theorem mixture_unbiased {Ω β : Type} (outcomes : List Ω) (S : List β) (p : β → K) (q : β → Ω → K)
+    (qm : Ω → K) (f : Ω → K)
+    (hmix : ∀ ω ∈ outcomes, (S.map fun s => p s * q s ω).sum + (1 - (S.map p).sum) * qm ω ≠ 0) :
+    let mix := fun ω => (S.map fun s => p s * q s ω).sum + (1 - (S.map p).sum) * qm ω
+    (S.map fun s => p s * (outcomes.map fun ω => q s ω * (f ω / mix ω)).sum).sum
+      + (1 - (S.map p).sum) * (outcomes.map fun ω => qm ω * (f ω / mix ω)).sum
+      = (outcomes.map f).sum := by
+  intro mix
+  induction outcomes with
+  | nil => simp
+  | cons ω rest ih =>
+    have ih := ih (fun ω' h => hmix ω' (by simp [h]))
+    have hω : mix ω ≠ 0 := hmix ω (by simp)
+    simp only [List.map_cons, List.sum_cons]
+    rw [sum_map_mul_add, ← ih]
+    have := sum_map_mul_const S p (fun s => q s ω) (f ω / mix ω)
+    rw [this]
+    have hf : mix ω * (f ω / mix ω) = f ω := by field_simp
+    have hmixdef : mix ω = (S.map fun s => p s * q s ω).sum + (1 - (S.map p).sum) * qm ω := rfl
+    rw [hmixdef] at hf
+    linear_combination hf
+
+
+
+theorem pickFocus_spec (p : K) (hp : 0 ≤ p) (fs : List (FocusPt K σ)) :
+    match pickFocus p fs with
+    | some f => ∃ i, ∃ hi : i < fs.length, fs[i] = f ∧
+        ((fs.take i).map (·.prob)).sum ≤ p ∧ p < ((fs.take (i + 1)).map (·.prob)).sum
+    | none => (fs.map (·.prob)).sum ≤ p := by
+  induction fs generalizing p with
+  | nil => simpa [pickFocus] using hp
+  | cons f fs ih =>
+    by_cases hlt : p - f.prob < 0
+    · have e : pickFocus p (f :: fs) = some f := by simp [pickFocus, hlt]
+      rw [e]
+      refine ⟨0, by simp, by simp, by simpa using hp, ?_⟩
+      simp; linarith
+    · have e : pickFocus p (f :: fs) = pickFocus (p - f.prob) fs := by simp [pickFocus, hlt]
+      rw [e]
+      have hp' : 0 ≤ p - f.prob := not_lt.mp hlt
+      have := ih (p - f.prob) hp'
+      cases hpk : pickFocus (p - f.prob) fs with
+      | none =>
+        rw [hpk] at this
+        simp only [List.map_cons, List.sum_cons]
+        simp only [] at this
+        linarith
+      | some f' =>
+        rw [hpk] at this
+        obtain ⟨i, hi, hf, h1, h2⟩ := this
+        refine ⟨i + 1, by simp; omega, by simpa using hf, ?_, ?_⟩
+        · simp only [List.take_succ_cons, List.map_cons, List.sum_cons]; linarith
+        · simp only [List.take_succ_cons, List.map_cons, List.sum_cons]; linarith
+
+
+/-! ### bidirectional path tracer bookkeeping -/
+
+
+theorem foldl_add_eq_sum (ds : List K) (a : K) : ds.foldl (· + ·) a = a + ds.sum := by
+  induction ds generalizing a with
+  | nil => simp
+  | cons d ds ih => simp only [List.foldl_cons, ih, List.sum_cons]; ring
+
+theorem sum_map_div (ds : List K) (t : K) : (ds.map fun d => d / t).sum = ds.sum / t := by
+  induction ds with
+  | nil => simp
+  | cons d ds ih => simp only [List.map_cons, List.sum_cons, ih]; ring
+
+/-- With `MinLength = 0` the path ender performs only the `Cutoff` roulette. -/
+theorem pathEnder_step_cutoff (cutoff : K) (uniform : σ → K × σ) (pe : PathEnder K) (g : σ) (i : Nat)
+    (mask : V3 K) :
+    let full := pe.fullMask.mul mask
+    let mean := (full.x + full.y + full.z) / 3
+    let keep := mean / cutoff
+    PathEnder.step 0 cutoff uniform pe g i mask =
+      if mean < cutoff then
+        (if keep < (uniform g).1 then (true, { pe with fullMask := full }, (uniform g).2)
+         else (false, { pe with fullMask := full, current := pe.current * (1 / keep) }, (uniform g).2))
+      else (false, { pe with fullMask := full }, g) := by
+  intro full mean keep
+  unfold PathEnder.step
+  simp only [ne_eq, not_true_eq_false, false_and, if_false]
+  by_cases h1 : mean < cutoff
+  · simp only [full, mean, keep] at h1 ⊢
+    simp only [h1, if_true]
+    by_cases h2 : ((pe.fullMask.mul mask).x + (pe.fullMask.mul mask).y + (pe.fullMask.mul mask).z) / 3 / cutoff < (uniform g).1
+    · simp [h2]
+    · simp [h2]
+  · simp only [full, mean, keep] at h1 ⊢
+    simp [h1]
+
 
 end M3d.Render
